@@ -432,4 +432,75 @@ def Results.elements : Results → List (List Str)
   | .single file => [file]
   | .multi files => files
 
+/-! ## (d) the other registration entry points: `spec_factory.find` and `filters.loads` -/
+
+inductive FindErr
+  | raw                 -- ValueError "<name>: Cannot filter raw files."
+  | add (e : AddErr)    -- whatever `filters._add_filter` raised
+deriving DecidableEq, Repr
+
+/-- `find(spec, pattern).__init__` (spec_factory.py 1538-1551) as far as filters are concerned: refuse a
+spec whose `raw` attribute is set; register through `filters._add_filter(spec, pattern)` (= `add_filter`,
+default budget MAX_MATCH) iff the spec object carries a true `filterable` attribute (registry points and
+the objects bound to them do); otherwise register nothing.  `Node.pointFilterable` is
+`bool(getattr(c, "filterable", False))` of any component. -/
+def findSpec (w : World) (st : State) (c : Comp) (pats : Option (List Str)) : State × Except FindErr Unit :=
+  if (w.node c).delegRaw then (st, .error .raw)
+  else if (w.node c).pointFilterable then
+    match addFilter w st c pats (some 10000) with
+    | (st', .ok _) => (st', .ok ())
+    | (st', .error e) => (st', .error (.add e))
+  else (st, .ok ())
+
+/-- histories that also use `find` -/
+inductive XOp
+  | base (o : Op)
+  | find (comp : Comp) (pats : Option (List Str))
+
+def stepX (w : World) (st : State) : XOp → State
+  | .base o => stepOp w st o
+  | .find c p => (findSpec w st c p).1
+
+def runX (w : World) (xs : List XOp) : State := xs.foldl (stepX w) State.init
+
+/-- what a `find` is in terms of `add_filter`: one call with the default budget, or nothing -/
+def desugar (w : World) : XOp → List Op
+  | .base o => [o]
+  | .find c p => if !(w.node c).delegRaw && (w.node c).pointFilterable then [.add c p (some 10000)] else []
+
+/-- `filters.loads(text)` (filters.py 222-227): every entry REPLACES `FILTERS[comp]`; `_CACHE` is left
+as it is -/
+def loadsReg (st : State) (entries : List (Comp × Allow)) : State :=
+  ⟨entries.foldl (fun r e => regSet r e.1 e.2) st.reg, st.cache⟩
+
+/-! ## (e) component types: `plugins.is_type` / `is_datasource` over derived types -/
+
+/-- the component types of insights (`datasource`, `parser`, …, and types DERIVED from them):
+`tt[t]` = index of the base class of type `t` among the component types, `none` = derived directly
+from `ComponentType` (single inheritance, as `dr.ComponentType` subclasses are declared) -/
+abbrev TypeTable := List (Option Nat)
+
+def parentOf (tt : TypeTable) (t : Nat) : Option Nat := (tt[t]?).getD none
+
+/-- `issubclass(t, base)`: walk the base classes -/
+def isSub (tt : TypeTable) : Nat → Nat → Nat → Bool
+  | 0, _, _ => false
+  | f + 1, t, base =>
+    t == base || (match parentOf tt t with
+      | some p => isSub tt f p base
+      | none => false)
+
+/-- `plugins.is_type(component, base)` for a component declared with type `t` -/
+def typeIs (tt : TypeTable) (t base : Nat) : Bool := isSub tt (tt.length + 1) t base
+
+/-- classes are declared after their base class -/
+def declaredInOrder (tt : TypeTable) : Bool :=
+  (List.range tt.length).all fun t => match parentOf tt t with
+    | some p => decide (p < t)
+    | none => true
+
+inductive Derives (tt : TypeTable) : Nat → Nat → Prop
+  | refl (t : Nat) : Derives tt t t
+  | step {t p b : Nat} : parentOf tt t = some p → Derives tt p b → Derives tt t b
+
 end IV.Filters
